@@ -104,7 +104,7 @@ def run(ctx: Ctx) -> None:
     rnd = ctx.rnd
     lexer = Lexer(TokenDefinition())
     tokenizer = Tokenizer()
-    N = ctx.n(900, 60000) * (4 if ctx.broken else 1)
+    N = ctx.n(900, 20000) * (4 if ctx.broken else 1)
     ncoq = ctx.n(600, 6000)
     c1, c2, c3, raw = [], [], [], []
     for i in range(N):
